@@ -28,7 +28,7 @@ ASSUMPTIONS = [
     "paths cdd cannot resolve raise; the oracle for a raise is 'output and input files byte-identical'",
 ]
 
-scal = st.sampled_from(["int", "str", "float", "bool", "Optional[int]", "List[str]", "Literal['a', 'b']"])
+scal = st.sampled_from(["int", "str", "float", "bool", "Optional[int]", "List[str]", "Literal['a', 'b']", "float | None", "int | List[int]", "np.ndarray", "Dict[str, int]", "'Forward'"])
 lit = st.sampled_from(["1", "-2", "'s'", "None", "True", "0.5", "(1, 2)"])
 
 
